@@ -32,12 +32,12 @@ with open('/verif/seeded/SUMMARY.md', 'w') as f:
     for r in rows:
         f.write("| %s | %s / %s | %s | %s | %s | %s | %s |\n" % r)
     home_missed = [r[0] for r in rows if r[0].split('-')[0] not in r[5]]
-    withdrawn = {"C16-P", "C16-Q", "C12-G", "C10-I", "C08-G", "C06-G", "C16-G", "C06-K", "C03-H", "C11-I", "C09-H", "C14-I", "C10-J", "C12-I", "C06-I", "C06-L", "C05-J", "C02-I",
+    withdrawn = {"C16-P", "C16-Q", "C08-U", "C14-X", "C12-G", "C10-I", "C08-G", "C06-G", "C16-G", "C06-K", "C03-H", "C11-I", "C09-H", "C14-I", "C10-J", "C12-I", "C06-I", "C06-L", "C05-J", "C02-I",
                  "C11-J", "C09-J", "C03-I", "C14-M", "C13-J", "C09-K", "C13-I", "C06-M"}
     f.write("\nChanges not caught by the check of their own property: %s\n" % (", ".join(home_missed) or "none"))
     f.write("\nOf these, not pursued because the change breaks nothing a listed statement promises (DESIGN.md section 12, review and round 7): %s\n" % ", ".join(x for x in home_missed if x in withdrawn))
     f.write("\nThe others (%s) break the value-preservation / applicability property rather than the one their author named and are caught by that check (see `caught by`).\n" % ", ".join(x for x in home_missed if x not in withdrawn))
 with open('/verif/seeded/SUMMARY.md', 'a') as f:
-    f.write("\n`seeded/prompts/` keeps one example of the prompt each round's agents were given (rounds 1, 8, 9, 10: the property text only; round 11: plus the two round-10 ideas and a request for multi-step / two-site / unusual-input changes; "
+    f.write("\n`seeded/prompts/` keeps one example of the prompt each round's agents were given (rounds 1, 8, 9, 10: the property text only; rounds 11 and 12: plus the ideas of the preceding rounds and a request for multi-step / two-site / unusual-input changes; "
             "rounds 2-3: plus the earlier ideas; rounds 4-7: plus a general description of what the checks vary).\n")
 print("written", len(rows))
